@@ -20,7 +20,7 @@ CONSTANTS
   CfgIds = {}
   RemoteKeys = {}
   LocalKeys = {}
-  OtherCls = {"indication", "success", "error"}
+  OtherCls = {"indication", "success", "error", "data"}
   InCls = {}
   CancelOps = {}
   Horizon = 4
